@@ -267,3 +267,27 @@ Example c01_limit_boundary_v1 :
   /\ w_ret (write_v1 ex_enc ex_zip 16777216 false (pk 61427)) = None
   /\ w_writes (write_v1 ex_enc ex_zip 16777216 false (pk 61427)) = [].
 Proof. repeat split; vm_compute; reflexivity. Qed.
+
+(* ---------------------------------------------------------------------------------- *)
+(* tie to the source, continued (C01/SourceBE.v): the big-endian field accessors regenerated
+   from codec/v1_header.go / v2_header.go TOGETHER WITH the standard-library functions they
+   call (encoding/binary bigEndian.Uint16 / Uint32, translated from GOROOT source) return, on
+   any complete header of bytes, exactly the fields the model's decoder reads at offsets
+   0, 4, 6, 10 (V1) and 6, 8, 12, 16 (V2), and do not panic *)
+From FV Require Import C01.SourceBE.
+
+Theorem c01_src_fields_v1 : forall h, wf_bytes h -> hs1 <= lenN h ->
+  go_V1Header_Len (zbytes h) = GoSem.Ok (Z.of_N (get16 h))
+  /\ go_V1Header_Seq (zbytes h) = GoSem.Ok (Z.of_N (get16 (skipn 4 h)))
+  /\ go_V1Header_Command (zbytes h) = GoSem.Ok (i32_of_n (get32 (skipn 6 h)))
+  /\ go_V1Header_Checksum (zbytes h) = GoSem.Ok (Z.of_N (get32 (skipn 10 h))).
+Proof. exact src_fields_v1. Qed.
+Print Assumptions c01_src_fields_v1.
+
+Theorem c01_src_fields_v2 : forall h, wf_bytes h -> hs2 <= lenN h ->
+  go_V2Header_Seq (zbytes h) = GoSem.Ok (Z.of_N (get16 (skipn 6 h)))
+  /\ go_V2Header_Node (zbytes h) = GoSem.Ok (Z.of_N (get32 (skipn 8 h)))
+  /\ go_V2Header_Command (zbytes h) = GoSem.Ok (i32_of_n (get32 (skipn 12 h)))
+  /\ go_V2Header_Checksum (zbytes h) = GoSem.Ok (Z.of_N (get32 (skipn 16 h))).
+Proof. exact src_fields_v2. Qed.
+Print Assumptions c01_src_fields_v2.
